@@ -5,6 +5,7 @@ import (
 	"go/ast"
 	"go/constant"
 	"go/token"
+	"go/types"
 	"strings"
 
 	"golang.org/x/tools/go/packages"
@@ -75,6 +76,10 @@ func runC07(c *Ctx) {
 	c.Rule("C07.O7", "E4", "message-boundary hygiene: the framing decision (parseTransferEncoding, parseContentLength, parseTrailer, in this order) dominates every entry into the end-of-head state; parseContentLength assigns the length on every successful path; handleMessage resets chunked, header and trailer", 3)
 	c.Rule("C07.O9", "E4", "token accumulators (proto, status, headerKey, headerValue) are cleared after they were delivered and before the next state is entered: they are filled only while empty, so a value left behind would be delivered again for the next message", 6)
 	c.Rule("C07.O10", "E5", "strings handed to the processor are copies: Parse makes no unsafe conversion of the read buffer (the buffer is reused for the next read while handlers still hold the strings)", 1)
+	c.Rule("C07.O11", "E2-escape", "a value list stored into a header multimap owns its spare capacity: it is the append to the key's own list, a fresh slice, or a slice capped at its length; never a window of a block shared with other keys (the append for a repeated name would overwrite a neighbour's value)", 1)
+	c07HeaderLists(c)
+	c.Rule("C07.O12", "E5", "a pooled nbhttp object (request, response, body reader) is recycled only by the library's own release path: no sync.Pool.Put of it is reachable from an exported method of its type, which the application may call while the library still holds the object and will release it again", 3)
+	c07PoolRecyclers(c)
 	c.Rule("C07.O4", "E8", "request.Close: major<1 -> true; 1.0 -> hasClose || !keepAlive; else hasClose, with hasClose / keepAlive set by the Connection values \"close\" / \"keep-alive\"", 1)
 
 	// ------------------------------------------------------------------ O1
@@ -572,4 +577,102 @@ func loadOfField(c *Ctx, fn *ssa.Function, at ssa.Instruction, field string) ssa
 		}
 	}
 	return nil
+}
+
+// c07HeaderLists: O11.  net/http's multimap gives every key its own value
+// list.  A list that is a 2-index window of a shared block still has the
+// block's capacity behind it, so the append for a repeated header name writes
+// into the slot that was handed to another key.
+func c07HeaderLists(c *Ctx) {
+	n := 0
+	for _, f := range c.pkgFuncs("nbhttp") {
+		k := 0
+		for _, b := range f.Blocks {
+			for _, in := range b.Instrs {
+				mu, ok := in.(*ssa.MapUpdate)
+				if !ok {
+					continue
+				}
+				mt, ok := mu.Map.Type().Underlying().(*types.Map)
+				if !ok || mt.Elem().Underlying().String() != "[]string" {
+					continue
+				}
+				n++
+				k++
+				key := fmt.Sprintf("%s: header list store#%d", c.P.FuncName(f), k)
+				bad := ""
+				var walk func(v ssa.Value, depth int)
+				seen := map[ssa.Value]bool{}
+				walk = func(v ssa.Value, depth int) {
+					if seen[v] || depth > 6 {
+						return
+					}
+					seen[v] = true
+					switch x := v.(type) {
+					case *ssa.Phi:
+						for _, e := range x.Edges {
+							walk(e, depth+1)
+						}
+					case *ssa.Slice:
+						if x.Max != nil {
+							return
+						}
+						if _, fresh := ir.Root(x.X).(*ssa.Alloc); fresh {
+							return
+						}
+						if _, mk := x.X.(*ssa.MakeSlice); mk {
+							return
+						}
+						bad = "the list stored at " + c.Pos(in) + " is a window (" + c.P.Desc(x) + ") of a longer slice without a capacity limit: the append for a repeated header name writes into storage that belongs to another key"
+					case *ssa.ChangeType:
+						walk(x.X, depth+1)
+					}
+				}
+				walk(mu.Value, 0)
+				c.Cond(bad == "", "C07.O11", key, c.Pos(in), "append result, fresh slice or capped slice", bad)
+			}
+		}
+	}
+}
+
+// c07PoolRecyclers: O12.  The request keeps pointing to its body reader (and
+// the connection to its response) until the library releases them after the
+// handler.  If a method the handler may call (Body.Close) already puts the
+// object back, another connection's parser gets it while the first request
+// still refers to it, and the later library release wipes the other request's
+// body.
+func c07PoolRecyclers(c *Ctx) {
+	scope := c.pkgFuncs("nbhttp")
+	n := 0
+	for _, f := range scope {
+		for _, cs := range c.P.CallsNamed(f, "(*sync.Pool).Put") {
+			if len(cs.Common.Args) < 2 {
+				continue
+			}
+			mi, ok := cs.Common.Args[1].(*ssa.MakeInterface)
+			if !ok {
+				continue
+			}
+			t := mi.X.Type()
+			n++
+			key := fmt.Sprintf("%s: Put(%s)", c.P.FuncName(ir.Outermost(f)), types.TypeString(t, func(p *types.Package) string { return p.Name() }))
+			reach := c.reachers(map[*ssa.Function]bool{ir.Outermost(f): true}, scope)
+			bad := ""
+			ms := c.P.SSA.MethodSets.MethodSet(t)
+			for i := 0; i < ms.Len(); i++ {
+				sel := ms.At(i)
+				if !sel.Obj().Exported() {
+					continue
+				}
+				m := c.P.SSA.MethodValue(sel)
+				if m == nil || !c.P.InModule(m) {
+					continue
+				}
+				if reach[m] {
+					bad = "the exported method " + c.P.FuncName(m) + " reaches the pool Put at " + c.Pos(cs.In) + ": the application can recycle the object while the library still refers to it (and releases it again after the handler), so another connection receives an object that is wiped under it"
+				}
+			}
+			c.Cond(bad == "", "C07.O12", key, c.Pos(cs.In), "not reachable from an exported method of the pooled type", bad)
+		}
+	}
 }
